@@ -13,7 +13,7 @@ def boundNs : Int := 1000000   -- 1 ms of virtual time: nothing in the library m
 def boundStalledNs : Int := 500000000   -- the `stalled` cases run in real time (see harness): half a second
 
 /-- interruption points whose cases run on real sockets / in real time -/
-def realTime (point : String) : Bool := point == "stalled" || point.startsWith "live" || point == "handshake" || point == "deadpeer" || point.startsWith "k"
+def realTime (point : String) : Bool := point == "stalled" || point.startsWith "live" || point == "handshake" || point == "deadpeer" || point.startsWith "k" || point.startsWith "opts"
 
 def judgeLine (line : String) : String :=
   match line.splitOn " | " with
